@@ -149,14 +149,14 @@ Proof.
 Qed.
 
 Lemma restart_fold_agree k c now i : forall l s s' e, AgreeX i s s' ->
-  AgreeX i (fst (fold_left (fun (acc : xs * bool) stage => if snd acc then acc else at_sim_start k c now i stage (fst acc)) l (s, e)))
-           (fst (fold_left (fun (acc : xs * bool) stage => if snd acc then acc else at_sim_start k c now i stage (fst acc)) l (s', e))).
+  AgreeX i (fst (fold_left (fun (acc : xs * bool) stage => if snd acc then acc else restart_stage k c now i stage (fst acc)) l (s, e)))
+           (fst (fold_left (fun (acc : xs * bool) stage => if snd acc then acc else restart_stage k c now i stage (fst acc)) l (s', e))).
 Proof.
   induction l as [|st l IH]; intros s s' e H; cbn [fold_left fst snd]; [exact H|].
   destruct e; [apply IH, H|].
-  destruct (at_sim_start_agree k c now i st s s' H) as [H1 H2].
+  destruct (at_sim_start_agree k c now i st s s' H) as [H1 H2]. unfold restart_stage.
   destruct (at_sim_start k c now i st s) as [s1 e1], (at_sim_start k c now i st s') as [s1' e1']. cbn [fst snd] in *. subst e1'.
-  apply IH, H1.
+  rewrite (ag_act _ _ _ (proj1 H1) i). apply IH, H1.
 Qed.
 
 Lemma module_restart_agree k c now i s s' : AgreeX i s s' ->
